@@ -1,40 +1,56 @@
-(* Concrete witnesses (by computation on the bit-exact model) that the full statement of C16 is false
-   of the code as written: full scale one code short, codes above full scale for 54..63 bits, the
-   undefined cast at 64 bits, and the SAR accumulator overflowing the code range. *)
+(* Concrete evaluations (by computation on the bit-exact model) at the inputs where the converters used
+   to break C16 before they were repaired: full scale one code short (C16-F8a), codes above full scale
+   for 54..63 bits (C16-F8b), the undefined cast at 64 bits (C16-F8c), the SAR accumulator overflowing
+   the code range (C16-F8d).  They now give what the property demands; the same inputs are kept in
+   harness/corpus/C16 so that a regression of the code is reported with them. *)
 From Coq Require Import ZArith List Bool.
 From Flocq Require Import Core BinarySingleNaN.
 From PyxelV Require Import Lib.B64 Model.Adc.
 Import ListNotations.
 Open Scope Z_scope.
 
-(* bits = 28, range (0, 8.934237255150775): the maximum voltage maps to 2^28 - 2 *)
+(* bits = 28, range (0, 8.934237255150775): the scaled maximum voltage truncates to 2^28 - 2 ... *)
 Definition w_short_vmax : b64 := mk 5029528446642079 (-49).
 
-Lemma high_saturation_short_witness :
+Lemma short_scaled_value :
   blt pzero w_short_vmax = true /\
-  simple_code 32 28 pzero w_short_vmax w_short_vmax = Some (2 ^ 28 - 2).
+  btruncZ (simple_scaled 28 pzero w_short_vmax w_short_vmax) = Some (2 ^ 28 - 2).
 Proof. split; vm_compute; reflexivity. Qed.
 
-(* bits = 54, range (-1.5, 2.25): the maximum voltage maps to 2^54, one above full scale *)
-Lemma high_bits_exceed_witness :
-  blt (mk (-3) (-1)) (mk 9 (-2)) = true /\
-  simple_code 64 54 (mk (-3) (-1)) (mk 9 (-2)) (mk 9 (-2)) = Some (2 ^ 54).
+(* ... and the converter returns full scale there, and stays below it just under the maximum *)
+Lemma short_repaired :
+  simple_code 32 28 pzero w_short_vmax w_short_vmax = Some (2 ^ 28 - 1) /\
+  simple_code 32 28 pzero w_short_vmax (bpred w_short_vmax) = Some (2 ^ 28 - 2).
 Proof. split; vm_compute; reflexivity. Qed.
 
-(* bits = 64, range (0, 1): the scaled value is 2^64, which does not fit uint64: the cast is undefined
-   (observed on x86-64: 0, i.e. the image wraps) *)
-Lemma wrap_witness :
+(* bits = 54, range (-1.5, 2.25): the scaled maximum voltage is 2^54, one above full scale; the clamp
+   keeps voltages just under the maximum at the largest double below 2^54 - 1 *)
+Lemma high_bits_repaired :
+  btruncZ (simple_scaled 54 (mk (-3) (-1)) (mk 9 (-2)) (mk 9 (-2))) = Some (2 ^ 54) /\
+  simple_code 64 54 (mk (-3) (-1)) (mk 9 (-2)) (mk 9 (-2)) = Some (2 ^ 54 - 1) /\
+  simple_code 64 54 (mk (-3) (-1)) (mk 9 (-2)) (bpred (mk 9 (-2))) = Some (2 ^ 54 - 2).
+Proof. repeat split; vm_compute; reflexivity. Qed.
+
+(* bits = 64, range (0, 1): the scaled maximum voltage is 2^64, which does not fit uint64 (it used to
+   wrap to 0); now full scale, and 2^64 - 2048 (the largest double below 2^64) just under the maximum *)
+Lemma wrap_repaired :
   btruncZ (simple_scaled 64 pzero (bofZ 1) (bofZ 1)) = Some (2 ^ 64) /\
-  simple_code 64 64 pzero (bofZ 1) (bofZ 1) = None.
+  simple_code 64 64 pzero (bofZ 1) (bofZ 1) = Some (2 ^ 64 - 1) /\
+  simple_code 64 64 pzero (bofZ 1) (bpred (bofZ 1)) = Some (2 ^ 64 - 2048) /\
+  simple_code 64 64 pzero (bofZ 1) pinf = Some (2 ^ 64 - 1).
+Proof. repeat split; vm_compute; reflexivity. Qed.
+
+(* an intermediate overflow (huge span, 64 bits) no longer makes the cast undefined: +inf is clamped *)
+Lemma overflow_clamped :
+  simple_scaled 64 pzero (mk 1 1000) (mk 1 999) = pinf /\
+  simple_code 64 64 pzero (mk 1 1000) (mk 1 999) = Some (2 ^ 64 - 2048).
 Proof. split; vm_compute; reflexivity. Qed.
 
-(* SAR, bits = 54, vmax = 1: any voltage >= vmax accumulates 2^54 *)
-Lemma sar_exceed_witness : sar_code 64 54 (bofZ 1) (bofZ 2) = Some (2 ^ 54).
+(* SAR at the resolutions where the float accumulator used to fail (repaired: integer accumulator) *)
+Lemma sar_full_scale_54 : sar_code 64 54 (bofZ 1) (bofZ 2) = Some (2 ^ 54 - 1).
 Proof. vm_compute. reflexivity. Qed.
 
-(* SAR, bits = 64: the first digital value is -2^63 (int64 wrap), so codes with the top bit set are
-   produced by casting a negative double to uint64, which is undefined *)
-Lemma sar64_undefined_witness : sar_code 64 64 (bofZ 1) (mk 3 (-2)) = None.
+Lemma sar_top_bit_64 : sar_code 64 64 (bofZ 1) (mk 3 (-2)) = Some (2 ^ 63 + 2 ^ 62).
 Proof. vm_compute. reflexivity. Qed.
 
 (* non-vacuity / sanity: ordinary settings behave as documented *)
